@@ -37,6 +37,9 @@ OUTSIDE = [
 EXPLANATION = 'reward outside bookkeeping lemmas per reward; collect pays min(owed, vault); global growth += F(dt, emissions, liquidity), dropped on overflow, never inflated'
 
 
+TECHNIQUE = TECHNIQUE + '; complemented by Engine M (rustc MIR -> integer SMT, z3 5.1): collect_reward(_v2) / set_reward_emissions(_v2) handlers in handler mode, Whirlpool::update_emissions from its MIR, accrual and credit leaf kernels, swap-loop wiring W5/P7'
+
+
 def run(ctx):
     # Engine M complement (props/mextra.py): the swap loop's crossing/fee/reward wiring (Floyd verification shared with C03) and, where relevant, the payout handlers and leaf kernels
     from props import mextra
